@@ -173,7 +173,8 @@ def worker_loop(ctx, A, W, RULE, drain_liveness=False):
     cmd_variants = set()
     bad = []
     handlers = set()
-    drain_sites = [bb for f, bb, t, m in A.recv_sites if m == "iter_next"]
+    drain_sites = [bb for f, bb, t, m in A.recv_sites if m in ("iter_next", "iter_for_each") and f is W]
+    foreach_sites = [bb for f, bb, t, m in A.recv_sites if m == "iter_for_each" and f is W]
     for p in paths:
         atoms = path_atoms(W, p)
         okatom = [a for a in atoms if a[0] == "enum" and strip_site(a[1]) == strip_site(rres)]
@@ -244,7 +245,23 @@ def worker_loop(ctx, A, W, RULE, drain_liveness=False):
     ctx.check(not bad and paths, RULE, "%s|one-handler-one-ack-per-command" % W.name,
               "per dequeued command: exactly one handler, run on the worker, then exactly one completion of that command's acknowledgement with the handler's status; Shutdown acknowledges itself then drains with ShuttingDown (%d loop paths)" % len(paths),
               W.where(R), "; ".join("%s via %s" % x for x in bad[:3]))
-    for db in drain_sites:
+    for db in foreach_sites:
+        # drain written as receiver.iter().for_each(|pair| ..): on every path of the closure the received pair's own
+        # acknowledgement is completed exactly once, with ShuttingDown
+        clo = W.op_origin(W.term(db)["args"][1])
+        c = F.fn(clo[1]) if clo[0] == "agg" else None
+        okc = c is not None
+        n_paths = 0
+        if okc:
+            from sym import ipaths
+            for sp in ipaths(F, c, stop=lambda n: n in A.done_fns, depth=2):
+                n_paths += 1
+                ds = sp.calls(A.done_fns)
+                if len(ds) != 1 or not same_value(ds[0].args[0], ("field", ("param", 2), "acknowledgement")) or not (ds[0].args[1][0] == "agg" and ds[0].args[1][2] == "ShuttingDown"):
+                    okc = False
+        ctx.check(okc and n_paths >= 1, RULE, "%s|every-drained-command-answered" % W.name,
+                  "every command received while draining is completed (on its own acknowledgement) before the next receive", W.where(db))
+    for db in [d for d in drain_sites if d not in foreach_sites]:
         t = W.term(db)
         ve = variant_edges(W, t["target"]) if t.get("target") is not None else None
         some = [tgt for n, tgt in ve[1] if n == "Some"] if ve else []
@@ -259,7 +276,7 @@ def worker_loop(ctx, A, W, RULE, drain_liveness=False):
                   RULE, "%s|every-drained-command-answered" % W.name,
                   "every command received while draining is completed (on its own acknowledgement) before the next receive", W.where(db))
     if drain_liveness:
-        for db in drain_sites:
+        for db in [d for d in drain_sites if d not in foreach_sites]:
             t = W.term(db)
             ve = variant_edges(W, t["target"]) if t.get("target") is not None else None
             some = [tgt for n, tgt in ve[1] if n == "Some"] if ve else []
